@@ -7,14 +7,14 @@
   Reference: MvModel/Spec.lean (`abs`, `specRun`).  Helper development: MvProps/C42Lemmas.lean.
 
   Every theorem quantifies over ALL reachable handles: either over every `m` with the Core invariant
-  `Inv m` (which every reachable state satisfies, `C42_reachable`), or over all operation lists of any length
+  `Inv m` (which every reachable state satisfies, `C42V_reachable`), or over all operation lists of any length
   with arbitrary trace inputs (stored lengths, footers, automatic checkpoints, WAL growth).
 
   What the token-level model can and cannot see.  `canon` (= `frame_canonical_bytes`) reads a frame's
   payload through its `(off, len)` pointer and assumes the bytes there are the ones that were stored.  The
   compaction loop REWRITES payloads and the index rebuild then writes the indexes from `dataEnd` on, so
-  "reads are unchanged" has two halves: the pointers still name the same payloads (`C42_vacuum_reads`), and
-  nothing is written over them afterwards (`C42_vacuum_layout`: active payloads are pairwise disjoint and end
+  "reads are unchanged" has two halves: the pointers still name the same payloads (`C42V_vacuum_reads`), and
+  nothing is written over them afterwards (`C42V_vacuum_layout`: active payloads are pairwise disjoint and end
   at or before `dataEnd`, where the index region starts).  The second half is FALSE for the unrepaired code
   (`C42_unrepaired_counterexample`), and that is exactly the corruption the harness replays on the real file.
 -/
@@ -25,7 +25,7 @@ namespace Mv.Core
 
 /-- every state of every history (with any variant of vacuum) satisfies the Core invariant, has the lexical
     index enabled, and refines the reference run of the acknowledged operations -/
-theorem C42_reachable (v : VacVariant) (ops : List Op) :
+theorem C42V_reachable (v : VacVariant) (ops : List Op) :
     Inv (runV v Mem.create ops) ∧ (runV v Mem.create ops).lexEnabled = true ∧
     abs (runV v Mem.create ops) = specRun [] (traceV v Mem.create ops) :=
   ⟨(runV_refines v Mem.create ops create_inv).1, runV_lexEnabled v Mem.create ops rfl,
@@ -44,7 +44,7 @@ theorem runV_append (v : VacVariant) (m : Mem) (ops : List Op) (op : Op) :
     timestamp, kind, track, tags, labels, role, supersedes / superseded_by, chunk fields, manifest, content
     token — and its STATUS, so inactive frames stay inactive and active ones stay active.  The abstract
     state does not move. -/
-theorem C42_vacuum_table (v : VacVariant) (m : Mem) (a b : Nat) (hi : Inv m) :
+theorem C42V_vacuum_table (v : VacVariant) (m : Mem) (a b : Nat) (hi : Inv m) :
     (m.vacuumV v a b).2 = Out.ok ∧ (m.vacuumV v a b).1.frames.map view = abs m ∧
     abs (m.vacuumV v a b).1 = abs m ∧ Inv (m.vacuumV v a b).1 :=
   ⟨(vacuumV_sim v m a b hi).2.2, (vacuumV_sim v m a b hi).2.1, vacuumV_abs v m a b hi, (vacuumV_sim v m a b hi).1.inv⟩
@@ -74,7 +74,7 @@ theorem vacuumV_frames (v : VacVariant) (m : Mem) (a b : Nat) (hi : Inv m) :
     is what it returned on the table the leading commit produced — also for a chunked document (whose bytes
     are the concatenation of its active chunks in `(chunk_index, id)` order, active or not itself); the frame
     keeps its view (id, metadata, status, content token), parent, stored length and encoding. -/
-theorem C42_vacuum_reads (v : VacVariant) (m : Mem) (a b : Nat) (hi : Inv m) (i : Nat) (f : Frame)
+theorem C42V_vacuum_reads (v : VacVariant) (m : Mem) (a b : Nat) (hi : Inv m) (i : Nat) (f : Frame)
     (h : (m.commit a).1.frames[i]? = some f) (hf : f.status = .active ∨ isManifestDoc f = true) :
     ∃ f', (m.vacuumV v a b).1.frames[i]? = some f' ∧ view f' = view f ∧ f'.parent = f.parent ∧
       (f.status = .active → f'.len = f.len) ∧ f'.zstd = f.zstd ∧
@@ -86,7 +86,7 @@ theorem C42_vacuum_reads (v : VacVariant) (m : Mem) (a b : Nat) (hi : Inv m) (i 
 
 /-- **C42 (inactive stays inactive).**  A superseded or deleted frame keeps its status and no longer owns
     stored bytes. -/
-theorem C42_inactive_stays_inactive (v : VacVariant) (m : Mem) (a b : Nat) (hi : Inv m) (i : Nat) (f : Frame)
+theorem C42V_inactive_stays_inactive (v : VacVariant) (m : Mem) (a b : Nat) (hi : Inv m) (i : Nat) (f : Frame)
     (h : (m.commit a).1.frames[i]? = some f) (hf : f.status ≠ .active) :
     ∃ f', (m.vacuumV v a b).1.frames[i]? = some f' ∧ f'.status = f.status ∧ f'.supersededBy = f.supersededBy ∧
       f'.len = 0 := by
@@ -124,7 +124,7 @@ theorem compactFramesV_idx (v : VacVariant) (m : Mem) :
     payloads are packed from the data start in id order, pairwise disjoint, and the payload region — hence
     the start of the rebuilt index region — ends exactly behind the last of them: `payloadEnd = dataEnd =`
     the sum of the active stored lengths. -/
-theorem C42_vacuum_layout (v : VacVariant) (hv : v.setsPayloadEnd = true) (m : Mem) (a b : Nat) (hi : Inv m)
+theorem C42V_vacuum_layout (v : VacVariant) (hv : v.setsPayloadEnd = true) (m : Mem) (a b : Nat) (hi : Inv m)
     (hl : m.lexEnabled = true) :
     PayloadsSafe (m.vacuumV v a b).1 ∧
     (m.vacuumV v a b).1.dataEnd = activeLen (m.commit a).1.frames ∧
@@ -163,7 +163,7 @@ theorem C42_vacuum_layout (v : VacVariant) (hv : v.setsPayloadEnd = true) (m : M
     * the in-memory vector index is the one the leading commit left, restricted to active frames — no
       vector of an active frame is dropped, none is added — and the persisted index is the same list;
     * the lexical engine (rebuilt from scratch) holds every active frame with index text exactly once. -/
-theorem C42_vacuum_indexes (v : VacVariant) (m : Mem) (a b : Nat) (hi : Inv m) (hl : m.lexEnabled = true) :
+theorem C42V_vacuum_indexes (v : VacVariant) (m : Mem) (a b : Nat) (hi : Inv m) (hl : m.lexEnabled = true) :
     (m.vacuumV v a b).1.time = some (specTime (abs m)) ∧
     (m.vacuumV v a b).1.vec = vecAfter (m.commit a).1 ∧
     (m.vacuumV v a b).1.pVec = vecAfter (m.commit a).1 ∧
@@ -190,27 +190,27 @@ theorem C42_vacuum_indexes (v : VacVariant) (m : Mem) (a b : Nat) (hi : Inv m) (
   cases v.checkpoints <;> cases v.persistsSketch <;> exact h
 
 /-- a time index that was in step with the table before is UNCHANGED -/
-theorem C42_time_unchanged (v : VacVariant) (m : Mem) (a b : Nat) (hi : Inv m) (hl : m.lexEnabled = true)
+theorem C42V_time_unchanged (v : VacVariant) (m : Mem) (a b : Nat) (hi : Inv m) (hl : m.lexEnabled = true)
     (hs : (m.commit a).1.time = some (timeEntries (m.commit a).1.frames)) :
     (m.vacuumV v a b).1.time = (m.commit a).1.time := by
-  rw [(C42_vacuum_indexes v m a b hi hl).1, hs, timeEntries_eq_specTime, commit_frames m a hi]
+  rw [(C42V_vacuum_indexes v m a b hi hl).1, hs, timeEntries_eq_specTime, commit_frames m a hi]
 
 /-- a vector index that holds only active frames (what `remove_frame_from_indexes` maintains) is UNCHANGED -/
-theorem C42_vec_unchanged (v : VacVariant) (m : Mem) (a b : Nat) (hi : Inv m) (hl : m.lexEnabled = true)
+theorem C42V_vec_unchanged (v : VacVariant) (m : Mem) (a b : Nat) (hi : Inv m) (hl : m.lexEnabled = true)
     (l : List VecEnt) (hv : (m.commit a).1.vec = some l) (he : (m.commit a).1.vecEnabled = true)
     (ha : ∀ e ∈ l, isActive (m.commit a).1.frames e.id = true) :
     (m.vacuumV v a b).1.vec = some l := by
-  rw [(C42_vacuum_indexes v m a b hi hl).2.1]
+  rw [(C42V_vacuum_indexes v m a b hi hl).2.1]
   unfold vecAfter
   rw [he, hv]
   simp only [if_true, Option.getD_some, Option.some.injEq]
   exact List.filter_eq_self.mpr ha
 
 /-- membership form: a vector is in the index after the vacuum iff it was there and its frame is active -/
-theorem C42_vec_mem (v : VacVariant) (m : Mem) (a b : Nat) (hi : Inv m) (hl : m.lexEnabled = true) (e : VecEnt) :
+theorem C42V_vec_mem (v : VacVariant) (m : Mem) (a b : Nat) (hi : Inv m) (hl : m.lexEnabled = true) (e : VecEnt) :
     e ∈ ((m.vacuumV v a b).1.vec).getD [] ↔
       (m.commit a).1.vecEnabled = true ∧ e ∈ ((m.commit a).1.vec).getD [] ∧ isActive (m.commit a).1.frames e.id = true := by
-  rw [(C42_vacuum_indexes v m a b hi hl).2.1]
+  rw [(C42V_vacuum_indexes v m a b hi hl).2.1]
   unfold vecAfter
   cases hve : (m.commit a).1.vecEnabled
   · simp
@@ -221,32 +221,23 @@ theorem C42_vec_mem (v : VacVariant) (m : Mem) (a b : Nat) (hi : Inv m) (hl : m.
 /-- **C42 (clean).**  The repaired vacuum leaves no WAL record pending (`Memvid::verify`'s
     `WalPendingRecords` check passes, the doctor's planner accepts the file), nothing dirty, and the sketch
     track persisted again behind the rebuilt indexes. -/
-theorem C42_vacuum_clean (m : Mem) (a b : Nat) (hi : Inv m) (hl : m.lexEnabled = true) :
+theorem C42V_vacuum_clean (m : Mem) (a b : Nat) (hi : Inv m) :
     (m.vacuumV .repaired a b).1.pending = [] ∧ (m.vacuumV .repaired a b).1.pendingInserts = 0 ∧
     (m.vacuumV .repaired a b).1.dirty = false ∧
     ((m.vacuumV .repaired a b).1.sketch ≠ [] → (m.vacuumV .repaired a b).1.pSketch = (m.vacuumV .repaired a b).1.sketch) := by
-  obtain ⟨_, _, _, _, _, i6, i7, _⟩ := compactFramesV_idx .repaired (m.commit a).1
-  have hl' : ((m.commit a).1.compactFramesV .repaired).lexEnabled = true := by
-    rw [(compactFramesV_idx _ _).1, commit_lexEnabled]; exact hl
-  obtain ⟨_, _, _, _, _, _, _, r8, r9, _⟩ := rebuildIndexes_nil ((m.commit a).1.compactFramesV .repaired) b hl'
-  obtain ⟨_, s2, s3⟩ := commit_settled m a hi
   rw [vacuumV_eq .repaired m a b hi]
-  refine ⟨rfl, ?_, ?_, ?_⟩
-  · show (m.vacRebuilt .repaired a b).pendingInserts = 0
-    unfold Mem.vacRebuilt; rw [r9, i7, s2]
-  · show (m.vacRebuilt .repaired a b).dirty = false
-    unfold Mem.vacRebuilt; rw [r8, i6, s3]
-  · intro hne
-    show (m.vacRebuilt .repaired a b).persistSketch.pSketch = (m.vacRebuilt .repaired a b).sketch
-    have hne' : (m.vacRebuilt .repaired a b).sketch ≠ [] := hne
-    unfold Mem.persistSketch
-    simp [hne']
+  refine ⟨rfl, rfl, rfl, ?_⟩
+  intro hne
+  show (m.vacRebuilt .repaired a b).persistSketch.pSketch = (m.vacRebuilt .repaired a b).sketch
+  have hne' : (m.vacRebuilt .repaired a b).sketch ≠ [] := hne
+  unfold Mem.persistSketch
+  simp [hne']
 
 /-- **C42 (reopen).**  Dropping the handle after the repaired vacuum and opening the file again gives the very
     same frame table — same pointers, same reads. -/
-theorem C42_reopen_after_vacuum (m : Mem) (a b c d : Nat) (hi : Inv m) (hl : m.lexEnabled = true) :
+theorem C42V_reopen_after_vacuum (m : Mem) (a b c d : Nat) (hi : Inv m) :
     ((m.vacuumV .repaired a b).1.reopen c d).1.frames = (m.vacuumV .repaired a b).1.frames := by
-  obtain ⟨hp, _, hd, _⟩ := C42_vacuum_clean m a b hi hl
+  obtain ⟨hp, _, hd, _⟩ := C42V_vacuum_clean m a b hi
   unfold Mem.reopen Mem.dropHandle
   rw [hd]
   simp only [Bool.false_eq_true, if_false]
@@ -257,35 +248,35 @@ theorem C42_reopen_after_vacuum (m : Mem) (a b c d : Nat) (hi : Inv m) (hl : m.l
   rw [(flushTantivy_keeps _ d).1]
   rfl
 
-theorem C42_reads_after_reopen (m : Mem) (a b c d : Nat) (hi : Inv m) (hl : m.lexEnabled = true) (f : Frame) :
+theorem C42V_reads_after_reopen (m : Mem) (a b c d : Nat) (hi : Inv m) (f : Frame) :
     canon ((m.vacuumV .repaired a b).1.reopen c d).1.frames f = canon (m.vacuumV .repaired a b).1.frames f := by
-  rw [C42_reopen_after_vacuum m a b c d hi hl]
+  rw [C42V_reopen_after_vacuum m a b c d hi]
 
 /-! ## 6. Whole histories -/
 
 /-- **C42 (histories).**  After ANY history that ends in a vacuum — whatever came before: puts, chunked
     documents, deletes, updates with and without payload (shared stored ranges), skip-index commits, crashes,
     earlier vacuums, doctor runs — the frame table equals the reference run of the acknowledged operations. -/
-theorem C42_history_table (v : VacVariant) (ops : List Op) (a b : Nat) :
+theorem C42V_history_table (v : VacVariant) (ops : List Op) (a b : Nat) :
     (runV v Mem.create (ops ++ [.vacuum a b])).frames.map view =
       specRun [] (traceV v Mem.create (ops ++ [.vacuum a b])) := by
-  obtain ⟨hi, _, _⟩ := C42_reachable v ops
-  have hr := (C42_reachable v (ops ++ [Op.vacuum a b])).2.2
+  obtain ⟨hi, _, _⟩ := C42V_reachable v ops
+  have hr := (C42V_reachable v (ops ++ [Op.vacuum a b])).2.2
   rw [← hr, runV_append]
   show (Mem.vacuumV v (runV v Mem.create ops) a b).1.frames.map view = abs (Mem.vacuumV v (runV v Mem.create ops) a b).1
-  rw [(C42_vacuum_table v _ a b hi).2.1, (C42_vacuum_table v _ a b hi).2.2.1]
+  rw [(C42V_vacuum_table v _ a b hi).2.1, (C42V_vacuum_table v _ a b hi).2.2.1]
 
 /-- full strength of the layout clause, per variant of the code -/
-def C42_layout_full (v : VacVariant) : Prop :=
+def C42V_layout_full (v : VacVariant) : Prop :=
   ∀ (ops : List Op) (a b : Nat), PayloadsSafe (runV v Mem.create (ops ++ [.vacuum a b]))
 
 /-- **C42 (layout, histories).**  With the repair no history can make a vacuum write its indexes over an
     active payload. -/
-theorem C42_layout : C42_layout_full .repaired := by
+theorem C42V_layout : C42V_layout_full .repaired := by
   intro ops a b
-  obtain ⟨hi, hl, _⟩ := C42_reachable .repaired ops
+  obtain ⟨hi, hl, _⟩ := C42V_reachable .repaired ops
   rw [runV_append]
-  exact (C42_vacuum_layout .repaired rfl _ a b hi hl).1
+  exact (C42V_vacuum_layout .repaired rfl _ a b hi hl).1
 
 /-! ## 7. The unrepaired code: counterexample (replayed on the real file by the harness corpus) -/
 
@@ -298,7 +289,7 @@ def wHistory : List Op :=
 
 /-- the unrepaired vacuum writes frame 1 to +0..82 and frame 2 to +82..164 but leaves the payload end at +82:
     `rebuild_indexes` starts the time index at +82, inside frame 2's payload -/
-theorem C42_unrepaired_counterexample : ¬ C42_layout_full .unrepaired := by
+theorem C42_unrepaired_counterexample : ¬ C42V_layout_full .unrepaired := by
   intro h
   have h1 := (h wHistory 5568 5568).1
   revert h1
@@ -308,15 +299,14 @@ theorem C42_unrepaired_counterexample : ¬ C42_layout_full .unrepaired := by
 theorem C42_unrepaired_leaves_wal_record :
     (runV .unrepaired Mem.create (wHistory ++ [.vacuum 5568 5568])).pending ≠ [] := by decide
 
-/-- with all switches off `vacuumV` is the Core model's `vacuum` on this history (and on every other: the
-    definitions coincide clause by clause) -/
-example : (runV .unrepaired Mem.create (wHistory ++ [.vacuum 5568 5568])).frames =
-    (run Mem.create (wHistory ++ [.vacuum 5568 5568])).frames := by decide
+/-- the Core model (= the repaired code) on the same history: the index region starts at +164, behind frame 2 -/
+example : (run Mem.create (wHistory ++ [.vacuum 5568 5568])).dataEnd = 164 ∧
+    (runV .unrepaired Mem.create (wHistory ++ [.vacuum 5568 5568])).dataEnd = 82 := by decide
 
 /-! ## Non-vacuity -/
 
 example : Inv (runV .repaired Mem.create wHistory) ∧ (runV .repaired Mem.create wHistory).lexEnabled = true :=
-  ⟨(C42_reachable .repaired wHistory).1, (C42_reachable .repaired wHistory).2.1⟩
+  ⟨(C42V_reachable .repaired wHistory).1, (C42V_reachable .repaired wHistory).2.1⟩
 
 /-- the same history with the repaired vacuum: frames 1 and 2 get their own copies at +0 and +82, the payload
     region and the index start move to +164, nothing is pending, both versions read the stored content -/
@@ -325,7 +315,7 @@ example : let m := runV .repaired Mem.create (wHistory ++ [.vacuum 5568 5568])
       [(0, .superseded, 0, 0, "err"), (1, .active, 0, 82, "223b2e341819a531"), (2, .active, 82, 82, "223b2e341819a531")] ∧
     m.payloadEnd = 164 ∧ m.dataEnd = 164 ∧ m.pending = [] ∧ m.time = some [(101, 1), (101, 2)] := by decide
 
-example : PayloadsSafe (runV .repaired Mem.create (wHistory ++ [.vacuum 5568 5568])) := C42_layout wHistory 5568 5568
+example : PayloadsSafe (runV .repaired Mem.create (wHistory ++ [.vacuum 5568 5568])) := C42V_layout wHistory 5568 5568
 
 /-- a chunked document, a deleted embedded frame, a payload update: the hypotheses of the read theorem hold for an
     active chunked document, and the conclusions are checked by evaluation too -/
@@ -343,5 +333,100 @@ example : let m := runV .repaired Mem.create (nvHistory ++ [.vacuum 60 70])
       [(0, .deleted, 0, 0, "err"), (1, .active, 0, 0, "cat:c1+c2"), (2, .active, 0, 5, "c1"), (3, .active, 5, 6, "c2"),
        (4, .superseded, 0, 0, "err"), (5, .active, 11, 7, "bb")] ∧
     m.vec = some [] ∧ m.time = some [(6, 1), (7, 5)] ∧ m.payloadEnd = 18 := by decide
+
+/-! ## 8. THE PROPERTY, over the Core model's own `vacuum` / `step` / `run`
+    (`vacuumV .repaired = Mem.vacuum`, `runV .repaired = run` by `rfl`: MvProps/C42Lemmas.lean) -/
+
+/-- /repo's `fn vacuum` has the three repaired statements (generated flags): reverting the repair breaks this -/
+theorem C42_code_is_repaired : codeVacuum = VacVariant.repaired := by decide
+
+/-- every state of every history satisfies the Core invariant, has the lexical index enabled, and refines the
+    reference run of the acknowledged operations -/
+theorem C42_reachable (ops : List Op) :
+    Inv (run Mem.create ops) ∧ (run Mem.create ops).lexEnabled = true ∧
+    abs (run Mem.create ops) = specRun [] (trace Mem.create ops) := by
+  have h := C42V_reachable .repaired ops
+  rwa [runV_repaired, traceV_repaired] at h
+
+/-- **C42 (table).**  `vacuum` succeeds and the committed table it leaves IS the reference table of the acknowledged
+    operations: every frame keeps id, URI, timestamp, kind, track, tags, labels, role, supersedes / superseded_by,
+    chunk fields, manifest, content token and STATUS (inactive stays inactive); the abstract state does not move. -/
+theorem C42_vacuum_table (m : Mem) (a b : Nat) (hi : Inv m) :
+    (m.vacuum a b).2 = Out.ok ∧ (m.vacuum a b).1.frames.map view = abs m ∧
+    abs (m.vacuum a b).1 = abs m ∧ Inv (m.vacuum a b).1 := C42V_vacuum_table .repaired m a b hi
+
+/-- **C42 (reads).**  For every active frame and every chunked document `frame_canonical_bytes` returns after the
+    vacuum what it returned on the table the vacuum's leading commit produced; view, parent, stored length and
+    encoding are kept. -/
+theorem C42_vacuum_reads (m : Mem) (a b : Nat) (hi : Inv m) (i : Nat) (f : Frame)
+    (h : (m.commit a).1.frames[i]? = some f) (hf : f.status = .active ∨ isManifestDoc f = true) :
+    ∃ f', (m.vacuum a b).1.frames[i]? = some f' ∧ view f' = view f ∧ f'.parent = f.parent ∧
+      (f.status = .active → f'.len = f.len) ∧ f'.zstd = f.zstd ∧
+      canon (m.vacuum a b).1.frames f' = canon (m.commit a).1.frames f := C42V_vacuum_reads .repaired m a b hi i f h hf
+
+/-- **C42 (inactive stays inactive).** -/
+theorem C42_inactive_stays_inactive (m : Mem) (a b : Nat) (hi : Inv m) (i : Nat) (f : Frame)
+    (h : (m.commit a).1.frames[i]? = some f) (hf : f.status ≠ .active) :
+    ∃ f', (m.vacuum a b).1.frames[i]? = some f' ∧ f'.status = f.status ∧ f'.supersededBy = f.supersededBy ∧
+      f'.len = 0 := C42V_inactive_stays_inactive .repaired m a b hi i f h hf
+
+/-- **C42 (layout).**  After the vacuum the active payloads are packed from the data start, pairwise disjoint, and
+    the payload region — hence the start of the rebuilt index region — ends exactly behind the last of them. -/
+theorem C42_vacuum_layout (m : Mem) (a b : Nat) (hi : Inv m) (hl : m.lexEnabled = true) :
+    PayloadsSafe (m.vacuum a b).1 ∧
+    (m.vacuum a b).1.dataEnd = activeLen (m.commit a).1.frames ∧
+    (m.vacuum a b).1.payloadEnd = activeLen (m.commit a).1.frames := C42V_vacuum_layout .repaired rfl m a b hi hl
+
+/-- **C42 (indexes).**  Time index = active documents of the reference table in `(ts, id)` order; in-memory and
+    persisted vector index = the pre-vacuum index restricted to active frames; lexical engine = every active
+    frame with index text, once. -/
+theorem C42_vacuum_indexes (m : Mem) (a b : Nat) (hi : Inv m) (hl : m.lexEnabled = true) :
+    (m.vacuum a b).1.time = some (specTime (abs m)) ∧
+    (m.vacuum a b).1.vec = vecAfter (m.commit a).1 ∧
+    (m.vacuum a b).1.pVec = vecAfter (m.commit a).1 ∧
+    (m.vacuum a b).1.lexDocs = fullLexRebuild (m.commit a).1.frames := C42V_vacuum_indexes .repaired m a b hi hl
+
+theorem C42_time_unchanged (m : Mem) (a b : Nat) (hi : Inv m) (hl : m.lexEnabled = true)
+    (hs : (m.commit a).1.time = some (timeEntries (m.commit a).1.frames)) :
+    (m.vacuum a b).1.time = (m.commit a).1.time := C42V_time_unchanged .repaired m a b hi hl hs
+
+theorem C42_vec_unchanged (m : Mem) (a b : Nat) (hi : Inv m) (hl : m.lexEnabled = true)
+    (l : List VecEnt) (hv : (m.commit a).1.vec = some l) (he : (m.commit a).1.vecEnabled = true)
+    (ha : ∀ e ∈ l, isActive (m.commit a).1.frames e.id = true) :
+    (m.vacuum a b).1.vec = some l := C42V_vec_unchanged .repaired m a b hi hl l hv he ha
+
+theorem C42_vec_mem (m : Mem) (a b : Nat) (hi : Inv m) (hl : m.lexEnabled = true) (e : VecEnt) :
+    e ∈ ((m.vacuum a b).1.vec).getD [] ↔
+      (m.commit a).1.vecEnabled = true ∧ e ∈ ((m.commit a).1.vec).getD [] ∧ isActive (m.commit a).1.frames e.id = true :=
+  C42V_vec_mem .repaired m a b hi hl e
+
+/-- **C42 (clean).**  No WAL record pending (`verify`'s WalPendingRecords check passes), nothing dirty, the sketch
+    track persisted again behind the rebuilt indexes. -/
+theorem C42_vacuum_clean (m : Mem) (a b : Nat) (hi : Inv m) :
+    (m.vacuum a b).1.pending = [] ∧ (m.vacuum a b).1.pendingInserts = 0 ∧ (m.vacuum a b).1.dirty = false ∧
+    ((m.vacuum a b).1.sketch ≠ [] → (m.vacuum a b).1.pSketch = (m.vacuum a b).1.sketch) := C42V_vacuum_clean m a b hi
+
+/-- **C42 (reopen).**  Drop + open after the vacuum gives the very same frame table, hence the same reads. -/
+theorem C42_reopen_after_vacuum (m : Mem) (a b c d : Nat) (hi : Inv m) :
+    ((m.vacuum a b).1.reopen c d).1.frames = (m.vacuum a b).1.frames := C42V_reopen_after_vacuum m a b c d hi
+
+theorem C42_reads_after_reopen (m : Mem) (a b c d : Nat) (hi : Inv m) (f : Frame) :
+    canon ((m.vacuum a b).1.reopen c d).1.frames f = canon (m.vacuum a b).1.frames f :=
+  C42V_reads_after_reopen m a b c d hi f
+
+/-- **C42 (histories).**  After ANY history that ends in a vacuum the frame table equals the reference run of the
+    acknowledged operations. -/
+theorem C42_history_table (ops : List Op) (a b : Nat) :
+    (run Mem.create (ops ++ [.vacuum a b])).frames.map view = specRun [] (trace Mem.create (ops ++ [.vacuum a b])) := by
+  have h := C42V_history_table .repaired ops a b
+  rwa [runV_repaired, traceV_repaired] at h
+
+/-- **C42 (layout, histories).**  No history can make a vacuum write its indexes over an active payload. -/
+theorem C42_layout (ops : List Op) (a b : Nat) : PayloadsSafe (run Mem.create (ops ++ [.vacuum a b])) := by
+  have h := C42V_layout ops a b
+  rwa [runV_repaired] at h
+
+example : PayloadsSafe (run Mem.create (wHistory ++ [.vacuum 5568 5568])) := C42_layout wHistory 5568 5568
+example : Inv (run Mem.create wHistory) := (C42_reachable wHistory).1
 
 end Mv.Core
